@@ -354,6 +354,35 @@ func attack(kp hx.KeyPair, c *chain, cred, other *gabi.Credential, last *gabi.Pr
 		}
 	case "strip":
 		p.NonRevocationProof = nil
+	case "Cr-zero":
+		p.NonRevocationProof.Cr = zeroRep(n, rng)
+	case "Cu-zero":
+		p.NonRevocationProof.Cu = zeroRep(n, rng)
+	case "zero-forgery":
+		// the holder builds a proof without its witness: Cr = Cu = 0 mod n, zeros hashed for the three commitments the
+		// verifier will reconstruct, the issuer's newest signed accumulator embedded
+		b, err := cred.CreateDisclosureProofBuilder([]int{1}, nil, false)
+		if err != nil {
+			hx.Fatal("builder: %v", err)
+		}
+		b.VerifSetAttrRandomizer(revIdx, revocation.NewProofRandomizer())
+		rnd, _ := gabi.NewProofRandomizers()
+		contrib, err := b.Commit(rnd)
+		if err != nil {
+			hx.Fatal("commit: %v", err)
+		}
+		newest := c.sacc(len(c.saccs) - 1)
+		acc, err := newest.UnmarshalVerify(kp.PK)
+		if err != nil {
+			hx.Fatal("newest accumulator: %v", err)
+		}
+		zr, zu, z := zeroRep(n, rng), zeroRep(n, rng), big.NewInt(0)
+		// (the hash sees the representatives as they are sent)
+		l := append([]*big.Int{ctx}, contrib[:2]...)
+		l = append(l, zr, zu, acc.Nu, z, z, z, nonce)
+		p = b.CreateProof(verifx.HashCommit(l, false)).(*gabi.ProofD)
+		p.NonRevocationProof = &revocation.Proof{Cr: zr, Cu: zu, SignedAccumulator: newest,
+			Responses: map[string]*big.Int{"beta": randBits(rng, 200), "delta": randBits(rng, 200), "epsilon": randBits(rng, 200), "zeta": randBits(rng, 200)}}
 	case "witness-attr-disclosed":
 		q, err := cred.CreateDisclosureProof([]int{1, revIdx}, nil, true, ctx, nonce)
 		if err != nil {
@@ -377,6 +406,11 @@ func attack(kp hx.KeyPair, c *chain, cred, other *gabi.Credential, last *gabi.Pr
 		}
 		res.Violation("manipulated-nonrev-proof-accepted", "a disclosure proof with a manipulated non-revocation part was accepted ("+kind+")", d)
 	}
+}
+
+// zeroRep returns a representative of 0 modulo n: 0, n, -n or 2n.
+func zeroRep(n *big.Int, rng *mrand.Rand) *big.Int {
+	return []*big.Int{big.NewInt(0), new(big.Int).Set(n), new(big.Int).Neg(n), new(big.Int).Lsh(n, 1)}[rng.Intn(4)]
 }
 
 // d10 constructs the known finding: an honest proof in which another hidden response is below the alpha bound.
